@@ -16,6 +16,7 @@ import (
 	"os"
 	"strconv"
 	"strings"
+	"sync"
 	"testing"
 	"time"
 
@@ -87,6 +88,54 @@ func vfDispCase(f []string) string {
 	return strings.Join(out, " ")
 }
 
+// sccrq <ns> <nr>: the LNS path of Dispatch (dispatch.go:139-169): a fresh tunnel and channel are
+// created by HandleSCCRQ/startTunnelRunner (PeerRWS 16), the SCCRQ's Ns/Nr are registered with Recv and
+// the SCCRP is sent through the channel.  Observed: the SCCRP's header and the channel afterwards.
+func vfSccrqCase(f []string) string {
+	n := func(s string) int { v, _ := strconv.Atoi(s); return v }
+	c := New(logger.Get("l2tp"))
+	peer := net.IPv4(10, 0, 0, 2).To4()
+	local := net.IPv4(10, 0, 0, 1).To4()
+	var mu sync.Mutex
+	var sent []string
+	c.SetSendControlFn(func(localIP, peerIP net.IP, lp, pp uint16, h l2tppkt.Header, body []byte) error {
+		b := "1"
+		if len(body) == 0 {
+			b = "z"
+		}
+		mu.Lock()
+		sent = append(sent, fmt.Sprintf("%s.%d.%d.%d", b, h.SessionID, h.Ns, h.Nr))
+		mu.Unlock()
+		return nil
+	})
+	c.SetLNSConfigResolver(func(string) (LNSConfig, bool) {
+		return LNSConfig{LocalHostname: "lns", ReceiveWindowSize: 4, HelloInterval: time.Hour}, true
+	})
+	body := l2tppkt.BuildSCCRQ(l2tppkt.SCCRQParams{HostName: "lac", LocalTunnelID: 99, ReceiveWindowSize: 4, FramingCaps: 3})
+	h := l2tppkt.NewControl(0, 0, uint16(n(f[0])), uint16(n(f[1])))
+	wire := append(h.AppendTo(nil, len(body)), body...)
+	pkt := &dataplane.ParsedPacket{
+		Protocol: models.ProtocolL2TP,
+		IPv4:     &layers.IPv4{SrcIP: peer, DstIP: local},
+		UDP:      &layers.UDP{SrcPort: 1701, DstPort: 1701},
+	}
+	pkt.UDP.Payload = wire
+	err := c.Dispatch(pkt)
+	var t *Tunnel
+	c.mu.RLock()
+	for _, x := range c.tunnels {
+		t = x
+	}
+	c.mu.RUnlock()
+	if err != nil || t == nil || t.Channel == nil {
+		return fmt.Sprintf("no-tunnel err=%v", err != nil)
+	}
+	c.stopTunnelRunner(t.PeerIP, t.LocalID)
+	mu.Lock()
+	defer mu.Unlock()
+	return fmt.Sprintf("S[%s]/%d,%d,%d,%d |", strings.Join(sent, ","), t.Channel.Ns(), t.Channel.Nr(), t.Channel.Cwnd(), t.Channel.Ssthresh())
+}
+
 func vfDispGuard(line string) string {
 	done := make(chan string, 1)
 	go func() {
@@ -98,6 +147,8 @@ func vfDispGuard(line string) string {
 		f := strings.Fields(line)
 		if len(f) >= 2 && f[0] == "disp" {
 			done <- vfDispCase(f[1:])
+		} else if len(f) == 3 && f[0] == "sccrq" {
+			done <- vfSccrqCase(f[1:])
 		} else {
 			done <- "badline"
 		}
